@@ -44,6 +44,7 @@ type seqEngine struct {
 	lastOpts  []store.Option
 	lastKind  string
 	lastImm   bool
+	lastBits  int
 }
 
 func copyDir(src, dst string) {
@@ -187,7 +188,13 @@ func (e *seqEngine) Exec(op *Op) string {
 		if e.mp != nil {
 			st.VerifAttachGC()
 		}
-		return "ok"
+		res := "ok"
+		if e.lastBits != 0 && bits != e.lastBits {
+			// the index was re-bucketed: the order in which the new index's pool was flushed is read back from its files
+			res = "ok torder=" + strings.Join(e.indexRecordsSince(0, 0), ",")
+		}
+		e.lastBits = bits
+		return res
 	case "put":
 		k, _ := hex.DecodeString(op.Arg("k"))
 		var v []byte
